@@ -1,4 +1,5 @@
 import SlotVerif.Proofs.SlotMap
+import SlotVerif.Proofs.SlotMapFresh
 /-!
 # C19 — Slot maps behave as finite maps independent of construction order
 
@@ -170,5 +171,31 @@ def big : SlotMap := ofPairs ((List.range 12).map (fun i => (4 * i, 4 * (11 - i)
 example : wfb big = true ∧ isBijection big = true ∧ big.length = 12 := by decide
 example : inverse (inverse big) = big ∧ composePartial big (inverse big) = identity (keys big) := by
   decide
+
+
+/-- **`compose_fresh` refines the reference map**: same key set as `self`; a key whose value is in the domain of
+`other` is composed; every other key gets a fresh slot — at or above the fresh counter the call started from,
+below the counter it leaves, of the fresh kind, and different keys get different fresh slots. -/
+theorem composeFresh_spec (m o : SlotMap) (f : Nat) (hm : WF m) :
+    WF (composeFresh m o f).1 ∧ f ≤ (composeFresh m o f).2 ∧
+    (∀ k, (get (composeFresh m o f).1 k).isSome ↔ (get m k).isSome) ∧
+    (∀ k v z, get m k = some v → get o v = some z → get (composeFresh m o f).1 k = some z) ∧
+    (∀ k v, get m k = some v → get o v = none →
+      ∃ c, get (composeFresh m o f).1 k = some c ∧ f ≤ c ∧ c < (composeFresh m o f).2 ∧ c % 4 = f % 4) ∧
+    (∀ k v k' v', get m k = some v → get m k' = some v' → get o v = none → get o v' = none →
+      get (composeFresh m o f).1 k = get (composeFresh m o f).1 k' → k = k') := by
+  have h0 : CFInv o f [] ([], f) :=
+    ⟨wf_nil, Nat.le_refl _, by intro k; simp [get], by intro p hp; simp at hp, by intro p hp; simp at hp,
+     by intro p hp; simp at hp, rfl⟩
+  have h := cf_foldl o f m [] ([], f) (by simpa [keys] using wf_nodup hm) h0
+  rw [List.nil_append, ← composeFresh_eq] at h
+  refine ⟨h.wf, h.ge, ?_, ?_, ?_, ?_⟩
+  · intro k; rw [h.keys k, get_isSome_iff hm]; rfl
+  · intro k v z hk hz
+    exact h.hit (k, v) ((get_eq_some_iff hm k v).mp hk) z hz
+  · intro k v hk hz
+    exact h.miss (k, v) ((get_eq_some_iff hm k v).mp hk) hz
+  · intro k v k' v' hk hk' hz hz' he
+    exact h.inj (k, v) ((get_eq_some_iff hm k v).mp hk) (k', v') ((get_eq_some_iff hm k' v').mp hk') hz hz' he
 
 end SV.SlotMap.C19
